@@ -43,6 +43,17 @@ def gen_cases(tier, seed):
         o["current_units"] = ["uA", "nA", "mA"][k % 3]
         drive = {"A": S.field_spec(rng, dev, o, ["uniform", "ramp", "uniform"][k % 3], b=0.3), "currents": S.current_spec(rng, dev, o, "const" if nt else "none", strength=0.2)}
         cases.append({"layer": "L2", "device": dev, "options": o, "drive": drive, "seed": int(rng.integers(1 << 30)), "cost": 15})
+    nw = 1 if tier == "quick" else 4
+    for k in range(nw):
+        # weakly driven device stated in large current units: every current density is a tiny NUMBER (1e-10 A/um and below), not a zero
+        nt = [2, 0][k % 2]
+        dev = zoo.gen_device(rng, n_terminals=nt, n_holes=0, probes=0, size="small")
+        o = S.base_options(rng, adaptive=True, steps=60)
+        o["field_units"] = ["mT", "T"][k % 2]
+        o["current_units"] = ["A", "mA"][k % 2]
+        bw = [1e-6, 1e-9][k % 2]
+        drive = {"A": S.field_spec(rng, dev, o, "uniform", b=bw), "currents": S.current_spec(rng, dev, o, "const" if nt else "none", strength=bw)}
+        cases.append({"layer": "L2", "weak": True, "device": dev, "options": o, "drive": drive, "seed": int(rng.integers(1 << 30)), "cost": 15})
     return cases
 
 
@@ -281,7 +292,7 @@ def _l2(spec):
     if pa.shape != pb.shape or np.max(np.abs(pa - pb)) > 1e-12 * (np.max(np.abs(pb)) + 1e-300):
         viol("potential_depends_on_dtype_of_positions", {"max_abs_diff": float(np.max(np.abs(pa - pb))), "scale": float(np.max(np.abs(pb)))})
     rr.cleanup()
-    return {"violations": V, "counters": C, "worst": W, "classes": ["L2", "units=" + lu + "/" + fu + "/" + cu],
+    return {"violations": V, "counters": C, "worst": W, "classes": ["L2", "units=" + lu + "/" + fu + "/" + cu, "weak_drive=" + str(bool(spec.get("weak")))],
             "nontrivial": C.get("solution_field_checks", 0) > 0 and C.get("solution_potential_checks", 0) > 0,
             "sample": {"sites": int(len(pts)), "points": n, "worst_over_gate": W}}
 
